@@ -209,6 +209,8 @@ def b_zip(eng, st, a, kw):
 
 
 def b_reversed(eng, st, a, kw):
+    if isinstance(a[0], TupV):
+        return TupV(list(reversed(a[0].items)))
     seq = eng.as_seq(a[0], st)
     return SeqV(seq.n, lambda i: seq.at(seq.n - 1 - i), "gen")
 
@@ -302,6 +304,11 @@ def b_any(eng, st, a, kw):
 
 
 def b_sum(eng, st, a, kw):
+    if isinstance(a[0], TupV):
+        tot = Z(a[1]) if len(a) > 1 else z3.IntVal(0)
+        for x in a[0].items:
+            tot = tot + Z(x)
+        return IntV(tot)
     seq = eng.as_seq(a[0], st)
     # sum of a filtered "1 for ..." comprehension is its length
     flt = seq.meta.get("filter")
